@@ -64,11 +64,15 @@ uint32_t __CPROVER_uninterpreted_div_u32(uint32_t, uint32_t); uint32_t __CPROVER
 uint64_t __CPROVER_uninterpreted_div_u64(uint64_t, uint64_t); uint64_t __CPROVER_uninterpreted_rem_u64(uint64_t, uint64_t);
 int32_t __CPROVER_uninterpreted_div_i32(int32_t, int32_t); int32_t __CPROVER_uninterpreted_rem_i32(int32_t, int32_t);
 int64_t __CPROVER_uninterpreted_div_i64(int64_t, int64_t); int64_t __CPROVER_uninterpreted_rem_i64(int64_t, int64_t);
+/* the only facts about the uninterpreted divide instruction that proofs may use: |a / b| <= |a| and |a % b| < |b| */
+#define AVM_MAG(x) ((x) < 0 ? (uint64_t)0 - (uint64_t)(x) : (uint64_t)(x))
 #define AVM_DIVDEF(T, S, MINV, SG) \
   static inline T AVM_DIV_##S(T a, T b) { __CPROVER_assert(b != 0, "division by zero"); \
-    if (SG) __CPROVER_assert(!(a == MINV && b == (T)-1), "signed division overflow (MIN / -1)"); return __CPROVER_uninterpreted_div_##S(a, b); } \
+    if (SG) __CPROVER_assert(!(a == MINV && b == (T)-1), "signed division overflow (MIN / -1)"); \
+    T q = __CPROVER_uninterpreted_div_##S(a, b); __CPROVER_assume(AVM_MAG(q) <= AVM_MAG(a)); return q; } \
   static inline T AVM_REM_##S(T a, T b) { __CPROVER_assert(b != 0, "division by zero"); \
-    if (SG) __CPROVER_assert(!(a == MINV && b == (T)-1), "signed division overflow (MIN % -1)"); return __CPROVER_uninterpreted_rem_##S(a, b); }
+    if (SG) __CPROVER_assert(!(a == MINV && b == (T)-1), "signed division overflow (MIN % -1)"); \
+    T r = __CPROVER_uninterpreted_rem_##S(a, b); __CPROVER_assume(AVM_MAG(r) < AVM_MAG(b)); return r; }
 AVM_DIVDEF(uint32_t, u32, 0, 0) AVM_DIVDEF(uint64_t, u64, 0, 0)
 AVM_DIVDEF(int32_t, i32, (-2147483647 - 1), 1) AVM_DIVDEF(int64_t, i64, (-9223372036854775807ll - 1), 1)
 #else
@@ -90,9 +94,13 @@ unsigned __int128 __CPROVER_uninterpreted_mul_u128(unsigned __int128, unsigned _
 #define AVM_MUL_u128(a, b) __CPROVER_uninterpreted_mul_u128((unsigned __int128)(a), (unsigned __int128)(b))
 #define AVM_MUL_u32(a, b) __CPROVER_uninterpreted_mul_u32((uint32_t)(a), (uint32_t)(b))
 #define AVM_MUL_u64(a, b) __CPROVER_uninterpreted_mul_u64((uint64_t)(a), (uint64_t)(b))
-#define AVM_MUL_i32(a, b) ((int32_t)(a) * (int32_t)(b))
-#define AVM_MUL_i64(a, b) ((int64_t)(a) * (int64_t)(b))
+int32_t __CPROVER_uninterpreted_mul_i32(int32_t, int32_t); int64_t __CPROVER_uninterpreted_mul_i64(int64_t, int64_t);
+__int128 __CPROVER_uninterpreted_mul_i128(__int128, __int128);
+#define AVM_MUL_i32(a, b) __CPROVER_uninterpreted_mul_i32((int32_t)(a), (int32_t)(b))
+#define AVM_MUL_i64(a, b) __CPROVER_uninterpreted_mul_i64((int64_t)(a), (int64_t)(b))
+#define AVM_MUL_i128(a, b) __CPROVER_uninterpreted_mul_i128((__int128)(a), (__int128)(b))
 #else
+#define AVM_MUL_i128(a, b) ((__int128)(a) * (__int128)(b))
 #define AVM_MUL_u128(a, b) ((unsigned __int128)(a) * (unsigned __int128)(b))
 #define AVM_MUL_u32(a, b) ((uint32_t)(a) * (uint32_t)(b))
 #define AVM_MUL_u64(a, b) ((uint64_t)(a) * (uint64_t)(b))
